@@ -105,7 +105,7 @@ Holds(b) == b = TRUE
 
 Init == /\ l = 1
         /\ S = [topo |-> [pus |-> {}, nodes |-> {}, ncpus |-> <<>>, nmem |-> <<>>, objs |-> {}, ocpus |-> <<>>],
-                user |-> <<>>, ref |-> {}, weak |-> {}]
+                user |-> <<>>, ref |-> {}, weak |-> {}, pool |-> {}]
         /\ nos = <<>> /\ ncs = 0 /\ pend = FALSE
 
 IsEvent(e) == l <= Len(T) /\ T[l].e = e /\ l' = l + 1
@@ -122,12 +122,13 @@ ResetCheck(e) ==
 TReset ==
   /\ IsEvent("Reset")
   /\ Holds(ResetCheck(T[l]))
-  /\ S' = [topo |-> TopoOf(T[l].topo), user |-> ResetUser(T[l]), ref |-> {}, weak |-> {}]
+  /\ S' = [topo |-> TopoOf(T[l].topo), user |-> ResetUser(T[l]), ref |-> {}, weak |-> {}, pool |-> {}]
   /\ nos' = NosOf(T[l].topo)
   /\ ncs' = IF T[l].adopt = 1 THEN -1 ELSE Len(T[l].cs)
   /\ pend' = (T[l].adopt = 1)
 
-AdoptState(e) == LET ref == AdoptRef(S.user, e.a) IN [S EXCEPT !.ref = ref, !.weak = AdoptWeak(ref)]
+AdoptState(e) == LET ref == AdoptRef(S.user, e.a) IN
+  [S EXCEPT !.ref = ref, !.weak = AdoptWeak(ref), !.pool = {[a |-> x.a, t |-> x.t, val |-> x.val] : x \in ref}]
 AdoptCheck(e) ==
   LET St == AdoptState(e) IN
   /\ ListingOK(e, S.user)
